@@ -200,7 +200,7 @@ def run(ctx):
         for hs in hashseeds:
             res = outs[hs][q]
             if any(x != res[0] for x in res[1:]):
-                which = "in a worker thread of" if res[0] == res[1] else "in"
+                which = "in a worker thread of, or a worker process forked from," if res[0] == res[1] else "in"
                 ctx.violation(f"repeating the seeded sequence {which} the same process gives different values",
                               {"kind": "history", "seed": repr(seed), "schemas": sources, "hashseeds": [hs],
                                "thread": bool(len(res) > 2), "observed": [r_[:3] for r_ in res]})
